@@ -186,6 +186,8 @@ func (sn *Node) GetOccupiedResource() *resources.Resource {
 }
 
 func (sn *Node) UpdateAllocatedResource(delta *resources.Resource) {
+	// the usage changes: the node must be re-sorted
+	defer sn.notifyListeners()
 	sn.Lock()
 	defer sn.Unlock()
 	sn.allocatedResource.AddTo(delta)
